@@ -1181,9 +1181,14 @@ def run(tier):
                 w.append(("api", "rev"))
             pairs += assign([c], hists, rng, w)
         use = exe
-        if exe_asan is not None and gname in ("items_exhaustive", "programs"):
+        if exe_asan is not None and gname == "items_exhaustive":
             use = exe_asan
         res = replay_cases(use, pairs, maxpar=vlib.NCPU)
+        if exe_asan is not None and gname == "programs":
+            # the I/O of the programs also under ASan/UBSan; their execution is judged on the plain build only (a sanitizer
+            # report inside an engine is the subject of C01/C04, not of the I/O round trip)
+            sub = [({k: v for k, v in c.items() if k != "exec"}, h) for c, h in pairs]
+            pairs, res = pairs + sub, res + replay_cases(exe_asan, sub, maxpar=vlib.NCPU)
         if exe_asan is not None and gname == "simulated":       # a quarter of the bulk also under ASan/UBSan
             sub = pairs[::4]
             res_a = replay_cases(exe_asan, sub, maxpar=vlib.NCPU)
